@@ -3,7 +3,7 @@ harness generator, the trusted-base items specific to the property."""
 
 TRUSTED_COMMON = [
     "Lean 4.33 kernel; axioms allowed: propext, Classical.choice, Quot.sound (audited with #print axioms on every property theorem on every run)",
-    "translate/t2.py (Rust integer-function subset -> lean/Matreex/Gen/Core.lean) and, run from it, t3.py (swap kernels), t4.py (mutable iterators), t5.py (transpose), t6.py (overwrite), t7.py (PartialEq), t8.py (constructors, reshape), t9.py (elementwise operations), t10.py (products), t11.py (checked indexing, element swap, swap dispatch), t12.py (row / column views, element iterators), t13.py (conversions), t14.py (resize, clear, map, apply, scalar operations) -> lean/Matreex/Gen/*.lean, all regenerated from /repo/src on every run; anything outside a translator's statement language is reported as a broken obligation, never guessed",
+    "translate/t2.py (Rust integer-function subset -> lean/Matreex/Gen/Core.lean) and, run from it, t3.py (swap kernels), t4.py (mutable iterators), t5.py (transpose), t6.py (overwrite), t7.py (PartialEq), t8.py (constructors, reshape), t9.py (elementwise operations), t10.py (products), t11.py (checked indexing, element swap, swap dispatch), t12.py (row / column views, element iterators), t13.py (conversions), t14.py (resize, clear, map, apply, scalar operations), t15.py (Display / Debug), t16.py (parallel wrappers), t17.py (order operations, mutable-view entry points, small constructors, named elementwise methods and matrix operators) -> lean/Matreex/Gen/*.lean, all regenerated from /repo/src on every run; anything outside a translator's statement language is reported as a broken obligation, never guessed",
     "harness/ (Rust) and lean/Main.lean + lean/Driver/ (protocol printers on both sides); the Lean compiler/runtime for the driver only",
     "64-bit usize/isize; rustc and std semantics of the primitives named in DESIGN.md section 5 (modelled, validated by correspondence)",
 ]
@@ -122,13 +122,14 @@ PROPS["C06"] = {
 }
 
 PROPS["C20"] = {
-    "module": "Matreex.Props.C20", "harness": "C20", "post": "fmtcfg",
-    "level_text": "PARTIAL. Machine-checked Lean 4 theorems about a List-Char model of both fmt bodies (no panic for any matrix and any renderings; for single-line renderings the exact text of Display — one bracketed line per logical row, equal widths, order transparency — and of Debug — header of column numbers, row numbers, every element labelled with its position in memory order), tied to the implementation by exhaustive-palette correspondence of the complete output text of Display and Debug. "
+    "module": "Matreex.Props.C20", "harness": "C20", "post": "fmtcfg", "extra_modules": ["Matreex.Lemmas.BridgeT15", "Matreex.Props.C20Source"],
+    "level_text": "PARTIAL. Both fmt bodies, the Lines helpers and the constants of src/fmt.rs are regenerated as Lean functions on every run (T15) and proved equal to the model for every matrix (C20.fmt_is_the_source; the only difference, stated exactly in display_source_full / debug_source_full, is the capacity-overflow panic of the cache allocation Vec::with_capacity(size): KNOWN FINDING F-C20-huge-zst-capacity — formatting a zero-sized-element matrix of >= 2^58 elements panics; machine-checked as fmt_source_panics_on_huge_zst, characterised by fmt_source_panic_iff, replayed on the implementation on every run). Machine-checked Lean 4 theorems about a List-Char model of both fmt bodies (no panic for any matrix and any renderings; for single-line renderings the exact text of Display — one bracketed line per logical row, equal widths, order transparency — and of Debug — header of column numbers, row numbers, every element labelled with its position in memory order), tied to the implementation by exhaustive-palette correspondence of the complete output text of Display and Debug. "
                   "All three feature configurations are executed on every run: the harness links features=full (colour feature compiled in, NO_COLOR set so colours are unsupported), and every formatting operation of the run is recomputed against /repo built with no default features and with the crate's default features (fmtcfg); the three texts must be identical. Not carried by the model: the colour feature's behaviour when colours ARE supported (owo-colors styling, supports-color detection); multi-line renderings are covered by the no-panic theorems and by correspondence of the full text, not by an exact-text theorem.",
-    "technique": "Lean 4 theorems over a List Char model of fmt.rs (loop invariants for the Lines cache; str::lines for break-free strings; width = max over logical positions) + full-text correspondence over a palette of empty / multi-byte / multi-line / CRLF renderings",
+    "technique": "Lean 4: src/fmt.rs regenerated statement by statement (T15) and proved equal to the model for every matrix; theorems over the List Char model (loop invariants for the Lines cache; str::lines for break-free strings; width = max over logical positions) + full-text correspondence over a palette of empty / multi-byte / multi-line / CRLF renderings",
     "trusted": ["core::fmt width/alignment padding ({:<w$}, {:>w$}, {SPACE:w$} = at least w characters), str::lines, chars().count() modelled in Model/Fmt.lean",
                 "element Display/Debug impls are an input function (render)",
-                "colour support detection (supports-color reading NO_COLOR / the terminal) is outside the model; runs use NO_COLOR=1"],
+                "colour support detection (supports-color reading NO_COLOR / the terminal) is outside the model; runs use NO_COLOR=1",
+                "translate/t15.py and the 50-line vocabulary Model/FmtPrims.lean (size_of::<VecDeque<String>>() = 32 is measured by the harness on every run); writes to the formatter are modelled as never failing (a String sink)"],
     "assumptions": ["Coh and size <= usize::MAX (C01)"],
 }
 
@@ -166,7 +167,7 @@ PROPS["C02"] = {
 
 PROPS["C16"] = {
     "module": "Matreex.Props.C16", "harness": "C16", "extra_modules": ["Matreex.Lemmas.BridgeT16"],
-    "level_text": "PARTIAL. Machine-checked Lean 4 theorems about a split-tree model of rayon's indexed producers: for EVERY binary split tree (every thread-pool size, every division of work) par_map / par_map_ref return exactly what map returns (same CapacityOverflow cases, shape, order, contents), the indexed iterators yield exactly the sequential (index, element) items with the regenerated Index::from_flattened, the leaves partition the work, every interleaving of the leaves' calls is a permutation of the sequential call list (exactly once per element) and par_apply's final memory equals the sequential one on every interleaving; plus theorems over the table of parallel.rs wrapper forms regenerated from the source on every run. "
+    "level_text": "PARTIAL. The nine wrappers of src/parallel.rs are regenerated as Lean functions of the split tree on every run (T16) and proved equal, for EVERY split tree, to the regenerated sequential apply / map / map_ref and element iterators (C16.parallel_is_the_source, par_apply_source_any_schedule). Machine-checked Lean 4 theorems about a split-tree model of rayon's indexed producers: for EVERY binary split tree (every thread-pool size, every division of work) par_map / par_map_ref return exactly what map returns (same CapacityOverflow cases, shape, order, contents), the indexed iterators yield exactly the sequential (index, element) items with the regenerated Index::from_flattened, the leaves partition the work, every interleaving of the leaves' calls is a permutation of the sequential call list (exactly once per element) and par_apply's final memory equals the sequential one on every interleaving; plus theorems over the table of parallel.rs wrapper forms regenerated from the source on every run. "
                   "Tied to the implementation by runs on real rayon pools of 1..32 threads with per-element run-time jitter, shapes from empty to 100200 elements, invocation counters and the set of worker threads observed. "
                   "Not exhibited by the model: rayon itself (its scheduler, work stealing, the unsafe collect into uninitialised memory, panic propagation) — the theorems assume rayon honours the IndexedParallelIterator / Producer contract stated in Model/Par.lean; the runs sample real schedules but cannot enumerate them.",
     "technique": "Lean 4 theorems quantified over every split tree and every interleaving of the leaves about a model of rayon's indexed producers + source-extracted wrapper table + differential runs on real thread pools of 1..32 threads with run-time jitter",
